@@ -281,3 +281,72 @@ def r_column_order(ctx: Ctx, rt: RT, prop):
     finally:
         I.overrides.clear()
         I.overrides.update(saved)
+
+
+def r_model_state(ctx: Ctx, rt: RT, prop):
+    """model constants that are neither parameters nor exported (DR / DA: minus_rt = -R*T, set by __init_parameters__ from the
+    isotherm's temperature) must be re-derived whenever a ModelIsotherm is built around an existing model object - the route
+    every importer takes (ModelIsotherm(model=model_from_dict(...), **metadata))"""
+    ctx.rule("RT-model-state: every attribute the model equations read that is assigned outside __init__/fit is either exported by "
+             "to_dict() or re-derived by __init_parameters__, and ModelIsotherm.__init__ calls __init_parameters__ with the "
+             "isotherm's properties also when it is handed a model instance")
+    model = rt.model
+    I = rt.I
+    classes = [c for m in model.modules.values() if m.name.startswith("pygaps.modelling.") for c in m.classes.values()]
+    derived = {}
+    for ci in classes:
+        assigned = {}
+        for mname, fi in ci.methods.items():
+            if mname in ("__init__", "fit", "fit_leastsq"):
+                continue
+            for x in ast.walk(fi.node):
+                if isinstance(x, ast.Assign):
+                    for t in x.targets:
+                        if isinstance(t, ast.Attribute) and ast.unparse(t.value) == "self":
+                            assigned.setdefault(t.attr, set()).add(mname)
+        reads = set()
+        for mname in ("loading", "pressure", "spreading_pressure"):
+            fi = ci.methods.get(mname)
+            if fi is not None:
+                reads |= {x.attr for x in ast.walk(fi.node) if isinstance(x, ast.Attribute) and ast.unparse(x.value) == "self" and isinstance(x.ctx, ast.Load)}
+        for attr in sorted(reads & set(assigned)):
+            derived[(ci.name, attr)] = assigned[attr]
+            ctx.ob(assigned[attr] <= {"__init_parameters__"}, Finding(
+                f"{prop}.RT-model-state", ci.methods[sorted(assigned[attr])[0]].where, f"{ci.name}|{attr}|assigned-in:{sorted(assigned[attr])}",
+                f"{ci.name}.{attr} is read by the model equation and assigned in {sorted(assigned[attr])}: state that is neither a parameter nor "
+                "re-derivable from the isotherm's properties cannot survive an export"), nontrivial_key=("model-state", ci.name, attr))
+    ctx.analysed["derived model attributes"] = {f"{k[0]}.{k[1]}": sorted(v) for k, v in derived.items()}
+    if not derived:
+        ctx.ob(True, nontrivial_key=("model-state", "none"))
+        return
+    # the import route re-derives them
+    mi = model.cls("pygaps.core.modelisotherm.ModelIsotherm")
+    init = mi.find_method("__init__")
+    saved = dict(I.overrides)
+    I.overrides.pop("pygaps.core.modelisotherm.ModelIsotherm", None)
+    I.overrides["pygaps.core.baseisotherm.BaseIsotherm.__init__"] = lambda I, fi, env, n: None
+    try:
+        for cname in sorted({k[0] for k in derived}):
+            ci = next(c for c in classes if c.name == cname)
+            called = []
+            I.overrides[ci.find_method("__init_parameters__").qualname] = lambda I, fi, env, n, called=called: called.append(env.get("params"))
+
+            def thunk(I, ci=ci):
+                called.clear()
+                mobj = Obj(cls=ci, label="model", attrs={"params": {}, "name": ci.name})
+                new = Obj(cls=mi, label="new", attrs={})
+                I.call_func(init, [], {"model": mobj, "branch": "ads", "temperature": Num.atom("Tst"), "material": Tok("m"), "adsorbate": Tok("a")},
+                            None, self_obj=new)
+                return new
+            for oc, _ in rt.explore(thunk):
+                if oc.kind != "ok":
+                    raise AnalysisError(f"ModelIsotherm.__init__ with a {cname} instance: {oc.exc}")
+                ok = bool(called) and isinstance(called[-1], dict) and veq(I, called[-1].get("temperature"), Num.atom("Tst"))
+                ctx.ob(ok, Finding(f"{prop}.RT-model-state", init.where, f"ModelIsotherm.__init__|model-instance|{cname}",
+                                   f"ModelIsotherm(model=<{cname} instance>, temperature=T, ...) - the route of every importer - does not call "
+                                   f"{cname}.__init_parameters__ with the isotherm's properties: {sorted(a for c, a in derived if c == cname)} keep the "
+                                   "class default, so the re-imported model predicts other loadings / pressures than the exported one"),
+                       nontrivial_key=("model-state-import", cname))
+    finally:
+        I.overrides.clear()
+        I.overrides.update(saved)
